@@ -353,7 +353,7 @@ def _aware_ops(name: str, tier: str) -> list:
             ops += [["cfb", "header_patch", [off, w], v] for v in LATTICE if v < (1 << (8 * w))]
         for p in sorted(streams):
             if p.startswith("\x05"):
-                ops += [["cfb", "pset", [p, off], v] for off in (4, 24, 44, 48, 52, 56, 60) for v in LATTICE]
+                ops += [["cfb", "pset", [p, off], v] for off in range(0, len(streams[p]) - 3, 4) for v in LATTICE]
         for st in sorted(s.get("rec", {})):
             if s["rec"][st] == "biff":
                 for k, (_, _, ln) in enumerate(S.biff_records(streams[st])):
@@ -520,7 +520,8 @@ class _Budget:
     def __init__(self, limit: float, to: str, early: bool):
         self.limit, self.to, self.early = limit, to, early
         self.samples: list = []
-        self.cut = self.deferred = self.claimer = False
+        self.cut = self.deferred = self.claimer = self.breached = False
+        self.swallowed = 0
         self.claimed = None
         self.reason = ""
 
@@ -536,16 +537,24 @@ class _Budget:
                 st.append(f"{_short(code.co_filename)}:{code.co_name}")
             f = f.f_back
         st.reverse()
-        self.samples.append(st)
+        if not (self.breached or self.cut or self.deferred):
+            self.samples.append(st)
+        if self.breached or self.cut or self.deferred:
+            # the verdict is in; whatever swallowed the first CaseTimeout (an `except BaseException:` somewhere below) gets it again
+            # on every tick until the call unwinds. No more progress notes: if it never unwinds, the master kills the worker.
+            self.swallowed += 1
+            raise P.CaseTimeout()
         cpu = time.process_time() - self.c0
         wall = time.monotonic() - self.t0
         if len(self.samples) % 8 == 0:
             P.note(self.mark)
         if cpu >= self.limit:
             self.reason = f"{cpu:.0f} s of CPU time"
+            self.breached = True
             raise P.CaseTimeout()
         if wall >= self.WALL_IDLE and cpu < 0.05 * wall:
             self.reason = f"{wall:.0f} s of wall time, blocked ({cpu:.1f} s CPU)"
+            self.breached = True
             raise P.CaseTimeout()
         if self.early and cpu >= self.CUT_CPU and len(self.samples) >= 3:
             site = self.site()
@@ -737,24 +746,35 @@ def evaluate(case, early: bool = False):
     except NotImplementedError:
         return "inexpressible", [], 0.0
     b = _Budget(SOFT_BUDGET, case["to"], early)
+    oc, fails = None, []
     try:
         with b:
+            if os.environ.get("VERIF_C01_SELFTEST") == "block" and case["src"] == "G:json" and case["op"] == ["trunc", 8] and case["seam"] == "direct":
+                import signal          # harness self-test: an uninterruptible call (exercises the hard-kill path of run())
+                signal.pthread_sigmask(signal.SIG_BLOCK, {signal.SIGALRM})
+                while True:
+                    pass
             oc, fails = run_seam(case, data, ext, wrapped)
     except P.CaseTimeout:
-        site = b.site()
-        if b.deferred:
-            return "deferred", [("hang", _cut_msg(b.reason, len(b.samples), site, len(data)), site)], time.process_time() - c0
-        if b.cut:
-            msg = _cut_msg(b.reason, len(b.samples), site, len(data))
-        else:
-            _confirm(case["to"], site)
-            msg = (f"no result and no exception after {b.reason} (budget {SOFT_BUDGET:.0f} s; all {len(b.samples)} stack samples inside "
-                   f"{site}); input {len(data)} bytes")
-        return "hang", [("hang", msg, site)], time.process_time() - c0
+        pass
     finally:
         if b.claimed:
             _unclaim(case["to"], b.claimed)
-    return oc, fails, time.process_time() - c0
+    dt = time.process_time() - c0
+    if b.breached or b.cut or b.deferred or oc is None:
+        # once the budget is crossed the verdict stands, whatever the call does with the interruption (olefile, for one, catches
+        # BaseException per property and carries on)
+        site = b.site()
+        extra = f"; the interruption was swallowed {b.swallowed} time(s) before the call unwound" if b.swallowed else ""
+        if b.deferred:
+            return "deferred", [("hang", _cut_msg(b.reason, len(b.samples), site, len(data)) + extra, site)], dt
+        if b.cut:
+            return "hang", [("hang", _cut_msg(b.reason, len(b.samples), site, len(data)) + extra, site)], dt
+        _confirm(case["to"], site)
+        msg = (f"no result and no exception after {b.reason or 'the budget'} (budget {SOFT_BUDGET:.0f} s; all {len(b.samples)} stack samples "
+               f"inside {site}){extra}; input {len(data)} bytes")
+        return "hang", [("hang", msg, site)], dt
+    return oc, fails, dt
 
 
 def _cut_msg(reason, nsamples, site, nbytes):
